@@ -121,6 +121,9 @@ type fSpec struct {
 	tcb    int
 	icb    int
 	refine bool
+	// derived: the function under test is obtained from the specified one through
+	// WithNewDescriptions ("same signature and implementation"), so every clause still applies
+	derived bool
 }
 
 func (f fSpec) String() string {
@@ -132,7 +135,11 @@ func (f fSpec) String() string {
 	if f.varp != nil {
 		v = f.varp.String()
 	}
-	return fmt.Sprintf("params[%s] var[%s] type=%d impl=%d refine=%v", strings.Join(ps, ","), v, f.tcb, f.icb, f.refine)
+	d := ""
+	if f.derived {
+		d = " via WithNewDescriptions"
+	}
+	return fmt.Sprintf("params[%s] var[%s] type=%d impl=%d refine=%v%s", strings.Join(ps, ","), v, f.tcb, f.icb, f.refine, d)
 }
 
 // argument kinds
@@ -233,7 +240,18 @@ func buildFunc(fs fSpec, log *[]spyEvent) function.Function {
 	if fs.refine {
 		spec.RefineResult = func(b *cty.RefinementBuilder) *cty.RefinementBuilder { return b.NotNull() }
 	}
-	return function.New(spec)
+	f := function.New(spec)
+	if fs.derived {
+		descs := make([]string, len(fs.params))
+		for i := range descs {
+			descs[i] = fmt.Sprintf("parameter %d", i)
+		}
+		if fs.varp != nil && len(fs.params)%2 == 0 {
+			descs = append(descs, "the rest") // with and without a description for the variadic parameter
+		}
+		f = f.WithNewDescriptions("derived", descs)
+	}
+	return f
 }
 
 func paramFor(fs fSpec, i int) (pSpec, bool) {
@@ -628,6 +646,13 @@ func runC10(c *Ctx) {
 						argLists(fs, 3, nk, func(args []cty.Value, kinds []int) { u.DistinctN(1); c10Check(u, fs, args, kinds) })
 						fv := fSpec{varp: &p, tcb: tcb, icb: icb, refine: rf}
 						argLists(fv, 2, nk, func(args []cty.Value, kinds []int) { u.DistinctN(1); c10Check(u, fv, args, kinds) })
+						if rf && (icb == implOK || icb == implBad) {
+							// the same specification reached through WithNewDescriptions
+							fd, fvd := fs, fv
+							fd.derived, fvd.derived = true, true
+							argLists(fd, 2, nk, func(args []cty.Value, kinds []int) { u.DistinctN(1); c10Check(u, fd, args, kinds) })
+							argLists(fvd, 2, nk, func(args []cty.Value, kinds []int) { u.DistinctN(1); c10Check(u, fvd, args, kinds) })
+						}
 					}
 				}
 			}
